@@ -15,7 +15,7 @@ entitled", answer independent of history), without the Lean model.
 import os
 
 THEOREMS = ["IstioModel.C11.Theorems", "IstioModel.C11.ParseTheorems", "IstioModel.C11.SdsTheorems", "IstioModel.C11.RefsTheorems",
-            "IstioModel.C11.AuthCacheTheorems"]
+            "IstioModel.C11.AuthCacheTheorems", "IstioModel.C11.TimedTheorems"]
 STREAMS = ("auth", "stream", "parse", "refs", "sds")
 
 
@@ -27,6 +27,17 @@ def _case_of(ctx, ops, i):
     s = starts[i]
     e = starts[i + 1] if i + 1 < len(starts) else len(lines)
     return lines[s:e]
+
+
+def _fingerprint(stream, verdict):
+    """stream:clause[:branch] - the oracle names the branch through which a clause failed, so that unrelated defects
+    behind one clause get different fingerprints (and replay files)."""
+    toks = verdict.split()
+    fp = "%s:%s" % (stream, toks[1])
+    for t in toks:
+        if t.startswith("branch=") or t.startswith("query="):
+            fp += ":" + t.split("=", 1)[1]
+    return fp
 
 
 def oracle(ctx, stream, case_lines, rep, wide=True):
@@ -54,7 +65,7 @@ def oracle(ctx, stream, case_lines, rep, wide=True):
         for i, v in enumerate(ctx.read_lines(out)):
             if v.startswith("FAIL"):
                 clause = v.split()[1]
-                return ("%s:%s" % (stream, clause),
+                return (_fingerprint(stream, v),
                         "%s: clause '%s' of the property fails on the real code" % (stream, clause),
                         {"stream": stream, "ops": _case_of(ctx, ops, i), "oracle_verdict": v, "correspondence": rep})
     return None
@@ -100,8 +111,8 @@ def run(ctx):
                 "Generate requests (forced / incremental / nil) plus cache clears on ONE shared cache; distinct = hash of (ops, "
                 "implementation outputs); non-trivial = at least one op")
     ctx.assumptions = [
-        "Kubernetes RBAC (SubjectAccessReview) is an abstract function authz(serviceAccount, namespace) per cluster; its 1-5 minute result cache in "
-        "CredentialsController is sound because the outcome is constant during a case",
+        "Kubernetes RBAC (SubjectAccessReview) is an abstract, time-varying function authz(t, cluster, serviceAccount, namespace); the API server behind "
+        "it is a fake authoriser (exact question, API-error, Denied / EvaluationError dressing)",
         "ReferenceGrant evaluation is the real gatewaycommon.ReferenceGrants.SecretAllowed over real gateway-api objects in the refs and stream "
         "streams (model grantEval); the theorems about mergeGateways quantify over an arbitrary SecretAllowed predicate. Which Gateway configs "
         "attach to a proxy (selectors, service instances, PILOT_SCOPE_GATEWAY_TO_NAMESPACE) is an input of the refs stream",
@@ -125,7 +136,13 @@ def run(ctx):
         "config cluster's same-named namespace without consulting the config cluster's RBAC (modelled as the code does)",
         "namespaces, service accounts and cluster ids contain no '/' (used only by the cache-key injectivity theorem; ParseIdentity guarantees it for the "
         "verified namespace)",
-        "no private-key-provider (cryptomb/qat) proxy config; CRL / OCSP staple fields are not part of the compared view",
+        "CRL / OCSP staple fields are not part of the compared view; private-key-provider configs are cryptomb / qat with one configuration each "
+        "(the model's provider label stands for the real xxhash of the configuration)",
+        "the secret store is immutable within a case (Secret / ConfigMap updates with cache.Clear(keys) are C06's subject); LRU eviction and the "
+        "push-start token rule of lruCache.Add do not fire (synthetic increasing start times)",
+        "service accounts / namespaces contain no ':' (serviceaccount.MakeUsername would alias users)",
+        "feature flags are pinned at harness start (pinFeatures) and set explicitly by the ops that exercise them; only the sds stream varies "
+        "PILOT_ENABLE_REMOTE_CREDENTIALS_CONTROLLER and the mesh default ProxyConfig; the stream world's SecretGen has a nil mesh config",
         "TLS termination / certificate validation that produce the credential identity list (security.Authenticators) are inputs",
     ]
     ctx.trusted.append("pilot/pkg/xds/zz_verif_c11.go (verif-tagged accessors for initProxyMetadata, authenticate, authorize, checkConnectionIdentity)")
@@ -148,6 +165,28 @@ def run(ctx):
     ctx.diff_stream("parse", ctx.n(3000, 60000), oracle=oracle)
     ctx.diff_stream("refs", ctx.n(3000, 60000), oracle=oracle)
     ctx.diff_stream("sds", ctx.n(600, 8000), oracle=oracle)
+    # what the real code answered, by class (generator regressions show here)
+    for stream in STREAMS:
+        impl = os.path.join(ctx.work, "%s.run.impl" % stream)
+        if not os.path.exists(impl):
+            continue
+        for l in ctx.read_lines(impl):
+            t = l.split(" ")
+            k = t[0]
+            if k in ("ok", ""):
+                k = "ok-" + t[1] if stream == "parse" and len(t) > 1 and len(t[1]) < 24 else k
+            if stream == "refs":
+                k = "refs-empty" if l == "refs=-" else "refs-nonempty" if l.startswith("refs=") else k
+            if stream == "stream" and k == "accepted":
+                k = "accepted-" + ("unverified" if len(t) > 1 and t[1] == "none" else "verified") + ("-with-secrets" if any(x != "-" for x in t[5:] if not x.startswith("cfg=")) else "")
+            if stream == "stream" and k == "debug":
+                k = "debug-" + t[1] + ("-certs" if "certs=-" not in l else "")
+            if stream == "auth" and k.startswith("cfg="):
+                k = "conn-" + (t[1] if len(t) > 1 else "?") + ("-verified" if len(t) > 2 and t[1] == "ok" and t[2] != "none" else "")
+            if stream == "sds":
+                k = k.split(":")[0] if k.startswith("cached") else k
+            if len(k) < 40:
+                ctx.count("outcome.%s.%s" % (stream, k))
     # second line: the property oracle on every generated and corpus case, independent of the model
     for stream in STREAMS:
         files = []
@@ -175,7 +214,7 @@ def run(ctx):
             for i, v in enumerate(verdicts):
                 if v.startswith("FAIL"):
                     clause = v.split()[1]
-                    ctx.violation("%s:%s" % (stream, clause),
+                    ctx.violation(_fingerprint(stream, v),
                                   "%s: clause '%s' of the property fails on the real code" % (stream, clause),
                                   {"stream": stream, "ops": _case_of(ctx, ops, i), "oracle_verdict": v}, True)
                     break
@@ -209,37 +248,43 @@ def replay(ctx, path):
 MANIFEST = {
     "level_text": ("Lean 4 proof over an exact model of authenticate/authorize/checkConnectionIdentity/ParseIdentity/GetProxyConfigNamespace, of "
                    "SecretGen.Generate (identity check -> sdsNeedsPush -> parseResources -> filterAuthorizedResources -> incremental filter -> "
-                   "cache.Get -> generate -> cache.Add), ParseResourceName, SecretResource.Key, the kube credential lookups, the multicluster "
-                   "aggregate and the VerifiedCertificateReferences computation of mergeGateways: identity_binding (accepted => VerifiedIdentity is "
-                   "a presented credential proving - whenever claimed - the service account and the namespace), "
-                   "sds_release_sound (private key returned => kubernetes:// in the verified namespace and authorised, or kubernetes-gateway:// "
-                   "with the exact requested name verified; unverified proxy gets nothing), refs_sound / gateway_release_bound (a verified "
-                   "reference exists only for the verified identity a Gateway expects and names its own namespace or is granted; for ListenerSet children the "
-                   "ListenerSet's namespace, under the AllowedListeners assumption), authorize_bounded_staleness (a cached RBAC verdict is never older than its TTL), "
-                   "parse_namespace_binding, key_injective and sds_noninterference (over every interleaved request history on a shared cache the "
-                   "answer equals the cache-free specification). The model is tied to /repo on every run by a line-by-line differential against "
-                   "the real functions, including real ADS and delta streams through DiscoveryServer.Stream/StreamDeltas."),
+                   "cache.Get -> generate -> cache.Add) WITH the SubjectAccessReview result cache and a clock in the loop (generateT), "
+                   "ParseResourceName, SecretResource.Key incl. the private-key-provider hash, the kube credential lookups, the multicluster "
+                   "aggregate, the VerifiedCertificateReferences computation of mergeGateways, ReferenceGrant evaluation and the AllowedListeners "
+                   "predicate: identity_binding (accepted => VerifiedIdentity is a presented credential proving - whenever claimed - the service "
+                   "account and the namespace); timed_release_sound / timed_history_release_sound (over every history of clock advances, RBAC "
+                   "changes, cache clears and requests by arbitrary proxies: a kubernetes:// key pair is released only if the requester's cluster "
+                   "truly authorised it less than 300 s before; kubernetes-gateway:// only for an exact verified reference, read from the config "
+                   "cluster only); generateT_spec (every answer equals the cache-free specification evaluated with the requester's effective - "
+                   "boundedly stale - RBAC verdict: the past matters only through the requester's own cached verdict; with a constant RBAC outcome "
+                   "this is sds_noninterference); refs_sound / gateway_release_bound (a verified reference exists only for the verified identity "
+                   "a Gateway expects and names its own namespace or is granted; for ListenerSet children the ListenerSet's namespace, under the "
+                   "AllowedListeners assumption); parse_namespace_binding, key_injective / fullKey_injective. The model is tied to /repo on every "
+                   "run by a line-by-line differential against the real functions, including real ADS and delta streams kept alive over a second "
+                   "request, a Gateway created or deleted mid-stream and a full push, and the debug / status / API generators asked by a second "
+                   "real stream (oracle: no private key in any such response)."),
     "level_note": ("Trusted: Lean kernel + {propext, Classical.choice, Quot.sound}; the hand-written model (tied by differential testing: streams auth, "
-                   "stream, parse, refs, sds on the real code, ~10900 cases quick; the stream cases keep the xDS stream alive over a second request and a full push); the verif-tagged accessor files pilot/pkg/xds/zz_verif_c11.go and "
-                   "pilot/pkg/model/zz_verif_c11.go; client-go fakes and fake gRPC streams. Caveats: (1) a client that claims no namespace at all "
-                   "(no NAMESPACE metadata, dot-less DNS domain) is accepted with any parsable credential and treated as namespace \"\" - the "
-                   "namespace half of identity_binding is conditional on a non-empty ConfigNamespace (its VerifiedIdentity, and hence SDS, is "
-                   "still the credential's); likewise the service-account half is vacuous when the client omits SERVICE_ACCOUNT metadata; (2) an unauthenticated (plaintext, nil identities) stream skips the check and only secrets are "
-                   "withheld from it; (3) proxy.Metadata.ClusterID is client-claimed: RBAC is evaluated by the claimed configured cluster and "
+                   "stream, parse, refs, sds on the real code, ~10900 cases quick); the verif-tagged accessor files pilot/pkg/xds/zz_verif_c11.go, "
+                   "pilot/pkg/model/zz_verif_c11.go and pilot/pkg/credentials/kube/zz_verif_c11.go (clock of the authorization cache); client-go "
+                   "fakes and fake gRPC streams. Caveats: (1) a client that claims no namespace at all (no NAMESPACE metadata, dot-less DNS domain) "
+                   "is accepted with any parsable credential and treated as namespace \"\"; likewise the service-account half of identity_binding "
+                   "is vacuous when SERVICE_ACCOUNT metadata is omitted (VerifiedIdentity, and hence SDS, is still the credential's); (2) an "
+                   "unauthenticated (plaintext, nil identities) stream skips the check and only secrets and debug data are withheld from it; (3) "
+                   "proxy.Metadata.ClusterID is client-claimed (after ClusterAliases): RBAC is evaluated by the claimed configured cluster and "
                    "kubernetes:// lookups fall back to the config cluster's namespace of the same name without that cluster's RBAC; (4) the trust "
-                   "domain of the credential is never compared (trust_domain_not_compared): spiffe://other-td/ns/ns1/sa/x binds as ns1 if the "
-                   "authenticators accept that trust domain; (5) NOT covered: the other release surfaces gated only by VerifiedIdentity != nil - "
-                   "debug xDS (debuggen.go, other proxies' config for any verified non-system namespace), statusgen.go, ECDS wasm pull secrets "
-                   "(ecds.go), apigen.go, WorkloadEntry auto-registration (autoregistration/controller.go:277) - so the first clause (\"obtains configuration only as...\") is tied through ConfigNamespace and SDS only; "
-                   "(6) RBAC verdicts are cached per user: a revoked authorisation may be honoured for < 300 s, a new one refused for < 60 s (modelled and "
-                   "proved as bounded staleness, tied with a clock hook); (7) ListenerSet children name secrets of their own namespace for the parent "
-                   "Gateway's proxies without a grant - sound only under the AllowedListeners handshake of the conversion (predicate tied, emission "
-                   "wiring and hand-written configs with internal annotations assumed). Kubernetes "
-                   "RBAC is an abstract authz function checked through a fake SubjectAccessReview authoriser (exact attributes, API-error mode); "
-                   "ReferenceGrant evaluation is driven for real (gateway-api objects -> ReferenceGrantsCollection -> SecretAllowed) and modelled "
-                   "(grantEval), gateway-to-proxy attachment is an input; TLS authentication that "
-                   "yields the identity list is an input; private-key-provider configs, CRL/OCSP fields and secret updates with cache "
-                   "invalidation are not modelled."),
-    "technique": "Lean 4 theorems over an exact model of identity binding, verified-reference computation and SDS release + differential correspondence with the real Go functions and real xDS streams",
+                   "domain of the credential is never compared (trust_domain_not_compared); (5) the debug generator (config_dump, syncz), the "
+                   "status generator and the API generator are covered by an oracle clause on real streams (no private key in any response, no "
+                   "data to unauthenticated or other-namespace askers) and a light model of their gating, not by theorems about their content; "
+                   "ECDS wasm pull secrets (GetDockerCredential), ndsz / edsz, WorkloadEntry auto-registration (autoregistration/controller.go:277) "
+                   "and the debug piggyback in processRequest are NOT covered; (6) RBAC verdicts are cached per user: a revoked authorisation may "
+                   "be honoured for < 300 s, a new one refused for < 60 s (modelled, proved and tied with a clock hook); (7) ListenerSet children "
+                   "name secrets of their own namespace for the parent Gateway's proxies without a grant - sound only under the AllowedListeners "
+                   "handshake of the conversion (predicate incl. matchExpressions tied; emission wiring and hand-written configs with internal "
+                   "annotations assumed). Kubernetes RBAC is an abstract time-varying authz function behind a fake SubjectAccessReview authoriser; "
+                   "ReferenceGrant evaluation and selector-based Gateway attachment are driven for real; private-key-provider configs (own and "
+                   "mesh default) are modelled as cache partitions; which trust domains authenticate is an input. Not modelled: CRL/OCSP fields, "
+                   "Secret store changes with cache.Clear(keys), LRU eviction, waypoint/ztunnel/agentgateway nodes, concurrent streams, "
+                   "EnableStrictGatewayMerging. Finding fixed in /repo by this check: 9d0eb93 (private key of provider configs in debug dumps)."),
+    "technique": "Lean 4 theorems over an exact model of identity binding, verified-reference computation and SDS release (with the RBAC result cache over time) + differential correspondence with the real Go functions and real xDS streams",
     "design_ref": "DESIGN.md section 5 C11",
 }
